@@ -226,7 +226,12 @@ class AcctSim(object):
             if isnan(px):
                 return
             want = float(L.mreq[i] * L.mult[i] * abs(L.pos[i]) * F(px))
-        if m < 0:
+        if L.pos[i] == 0 and m != 0:
+            # "zero when flat" is exact: no tolerance can excuse margin posted for no position (e.g. for a
+            # residual that the broker rounded away)
+            self.violate("margin_invariant", "{}: margin of {} is {} although the position is flat".format(tag, self.specs[i]["name"], m),
+                         kind="flat_not_zero")
+        elif m < 0:
             self.violate("margin_negative", "{}: margin of {} is negative: {}".format(tag, self.specs[i]["name"], m), kind="margined")
         elif abs(m - want) > L.tol():
             self.violate("margin_invariant", "{}: margin of {} is {} expected {} (req {} x mult {} x |pos| {} x liq {})".format(
@@ -361,6 +366,9 @@ class AcctSim(object):
         x = op["x"]
         if mode == "abs":
             return float(x)
+        if mode == "near_close":
+            # closes the position up to a residual x below the broker's rounding threshold (1e-7 contracts)
+            return (-float(L.pos[i]) + x) if L.pos[i] != 0 else 0.0
         if mode == "rel":
             if L.pos[i] != 0:
                 return float(L.pos[i]) * x
@@ -444,6 +452,8 @@ class AcctSim(object):
             self.probe("open")
         elif new_pos == 0:
             self.probe("close_exactly")
+            if op.get("mode") == "near_close" and F(old_pos) + F(q) != 0:
+                self.probe("close_with_residual_rounded_away")
         elif (old_pos > 0) != (new_pos > 0):
             self.probe("flip_through_zero")
         elif abs(new_pos) > abs(old_pos):
@@ -621,13 +631,24 @@ class AcctSim(object):
         if op.get("with_cash"):
             cs = cs + [Cash()]
             vals = vals + [op["with_cash"]]
+        absolute = op.get("absolute", True)
+        r = Rebalancing(cs, vals, measure=measure, absolute=absolute, fractional=fractional, margin=thr, time=self.t)
+        if op.get("preview"):
+            # the same request object is asked for its trades first (a preview) and executed afterwards, possibly
+            # after the market moved: nothing of the preview may stick to the object
+            try:
+                r.make_trades(b)
+            except Exception:
+                pass            # a preview may be refused (missing price, broke account) like the execution
+            self.probe("rebalancing_previewed_then_executed")
+            if op.get("preview_quote"):
+                self.op_quote(op["preview_quote"])
+                self.probe("market_moved_between_preview_and_execution")
         model_nlv = None if L.any_liq_missing() else L.nlv()
         broke = model_nlv is not None and float(model_nlv) <= 0
         near_broke = model_nlv is not None and abs(float(model_nlv)) <= 10 * L.tol()
         before_pos, before_cash, _ = self.snapshot_getters()
         n_rec = len(b.track_record)
-        absolute = op.get("absolute", True)
-        r = Rebalancing(cs, vals, measure=measure, absolute=absolute, fractional=fractional, margin=thr, time=self.t)
         if not absolute:
             self.probe("relative_rebalance")
         # interest for the elapsed period is credited first, whatever happens next
